@@ -533,7 +533,8 @@ func sendExempt(p *core.Program, fn *ssa.Function, op blockOp) (string, bool) {
 }
 
 func localMakeChan(v ssa.Value) *ssa.MakeChan {
-	for i := 0; i < 6; i++ {
+	// (an inlined helper that took the channel as a parameter adds a cell, a conversion and a capture per level)
+	for i := 0; i < 16; i++ {
 		switch x := v.(type) {
 		case *ssa.MakeChan:
 			return x
@@ -563,6 +564,38 @@ func localMakeChan(v ssa.Value) *ssa.MakeChan {
 			v = val
 		case *ssa.ChangeType:
 			v = x.X
+		case *ssa.Parameter:
+			// parameter of a function literal with a single call/go/defer site in its parent: the argument
+			lit := x.Parent()
+			if lit == nil || lit.Parent() == nil {
+				return nil
+			}
+			idx := -1
+			for k, pp := range lit.Params {
+				if pp == x {
+					idx = k
+				}
+			}
+			var arg ssa.Value
+			n := 0
+			allInstrs(lit.Parent(), func(in ssa.Instruction) {
+				c := ir.AsCall(in)
+				if c == nil || c.IsInvoke() {
+					return
+				}
+				callee := c.Value
+				if mc, ok := callee.(*ssa.MakeClosure); ok {
+					callee = mc.Fn
+				}
+				if callee == ssa.Value(lit) && idx >= 0 && idx < len(c.Args) {
+					n++
+					arg = c.Args[idx]
+				}
+			})
+			if n != 1 {
+				return nil
+			}
+			v = arg
 		default:
 			return nil
 		}
@@ -1372,18 +1405,29 @@ func ruleCalleeWake(r *core.Reporter) {
 						continue
 					}
 					// a channel parameter that every caller fills with a channel local to itself
-					if par := resolveParam(op.ch, 0); par != nil && par.Parent() == cal {
+					// (the operation may sit in a literal of the function that has the parameter: `defer func() { <-sem }()`)
+					encloses := func(outer, inner *ssa.Function) bool {
+						for f := inner; f != nil; f = f.Parent() {
+							if f == outer {
+								return true
+							}
+						}
+						return false
+					}
+					if par := resolveParam(op.ch, 0); par != nil && encloses(par.Parent(), cal) {
 						idx, sites, allLocal := paramIndex(par), 0, true
+						owner := par.Parent()
 						for _, f := range p.ModFuncs {
 							allInstrs(f, func(x ssa.Instruction) {
-								if c, isC := x.(*ssa.Call); isC && ir.CalleeOf(c.Common()) == cal {
+								// called, started with `go`, or deferred
+								if c := ir.AsCall(x); c != nil && ir.CalleeOf(c) == owner {
 									sites++
-									if idx < 0 || idx >= len(c.Call.Args) {
+									if idx < 0 || idx >= len(c.Args) {
 										allLocal = false
 										return
 									}
 									var leaves []ssa.Value
-									phiLeaves(ir.Strip(c.Call.Args[idx]), map[ssa.Value]bool{}, &leaves)
+									phiLeaves(ir.Strip(c.Args[idx]), map[ssa.Value]bool{}, &leaves)
 									for _, l := range leaves {
 										if localMakeChan(l) == nil && !ir.IsNilConst(l) {
 											allLocal = false
